@@ -1024,6 +1024,22 @@ def _check_line_sequence(ctx, wh: FuncInfo, res: RuleResult):
                     r_counts = try_const(ctx, f, row.slice)
             if isinstance(x, ast.Assign) and isinstance(x.targets[0], ast.Name) and x.targets[0].id == "atom_block_offset":
                 r_atoms = try_const(ctx, f, x.value)
+    # the atom block decoder slices the line list from a constant offset:  lines[off : off + atom_count]
+    from .readers import block_decoder
+    dec = block_decoder(ctx, "V3000", 0)
+    if dec is not None:
+        cands = []
+        for f in [dec] + [ctx.cg.funcs[q] for q in ctx.cg.closure([dec.fq])]:
+            for x in own_walk(f.node):
+                if isinstance(x, ast.Subscript) and isinstance(x.slice, ast.Slice) and x.slice.lower is not None and x.slice.upper is not None:
+                    lo_e = x.slice.lower
+                    if isinstance(lo_e, ast.Name):
+                        lo_e = single_def(f.node, lo_e.id) or lo_e
+                    lo = try_const(ctx, f, lo_e)
+                    if isinstance(lo, int) and lo >= 4 and norm(x.slice.lower) in norm(x.slice.upper) and try_const(ctx, f, x.slice.upper) is None:
+                        cands.append(lo)
+        if len(set(cands)) == 1:
+            r_atoms = cands[0]
     if r_atoms is None:
         # the atom block written as a slice with a literal start:  lines[7 : 7 + atom_count]
         for q in ctx.cg.closure([v3.fq]):
